@@ -174,3 +174,13 @@ Theorem C08_tie_lim_cancelled_entry_noeffect : forall (s : Limiter.st) (t : tid)
             (l, PrimImp.log0, LimiterImp.core s, PrimImp.OCancelled).
 Proof. exact LimiterGenEq.cancelled_entry_noeffect. Qed.
 Print Assumptions C08_tie_lim_cancelled_entry_noeffect.
+
+(* row 9: Condition.wait() called from an effectively cancelled scope raises before the holder test, with the lock
+   still held and nothing enqueued (segment regenerated by tools/translate_cond.py, tie T of C11) *)
+From AV Require EventCond CondImp CondGen CondGenEq.
+
+Theorem C08_tie_cond_wait_cancelled_entry_noeffect : forall (s : EventCond.cst) (c : EventCond.cid) (t : tid),
+  exists l, CondImp.exec CondGen.cond_wait_entry t CondImp.loc_entry_cancelled (CondImp.vis s c) =
+            (l, CondImp.vis s c, CondImp.OCancelled).
+Proof. exact CondGenEq.cond_wait_cancelled_entry_noeffect. Qed.
+Print Assumptions C08_tie_cond_wait_cancelled_entry_noeffect.
